@@ -634,7 +634,15 @@ def feature_probes():
            ('GET resource class', 'GET', '/resource_classes/VCPU', T('/resource_classes/{name}', 'GET')),
            ('GET custom resource class', 'GET', '/resource_classes/CUSTOM_RC1', T('/resource_classes/{name}', 'GET')),
            ('GET usages', 'GET', '/usages?project_id=%s' % P1, T('/usages', 'GET')),
-           ('GET candidates', 'GET', CANDS, ca)]
+           ('GET candidates', 'GET', CANDS, ca),
+           # the same reads with EMPTY results (no row contributes a timestamp: the header must still be there)
+           ('GET providers, none matching', 'GET', rp + '?name=no-such-provider', None),
+           ('GET provider allocations, none', 'GET', '%s/%s/allocations' % (rp, U3), None),
+           ('GET consumer allocations, unknown consumer', 'GET', '/allocations/%s' % C2, None),
+           ('GET aggregates, none', 'GET', '%s/%s/aggregates' % (rp, U3), T(rp + '/{uuid}/aggregates', 'GET')),
+           ('GET provider traits, none', 'GET', '%s/%s/traits' % (rp, U3), T(rp + '/{uuid}/traits', 'GET')),
+           ('GET traits, none matching', 'GET', '/traits?name=startswith:CUSTOM_NOPE', T('/traits', 'GET')),
+           ('GET usages, unknown project', 'GET', '/usages?project_id=no-such-project', T('/usages', 'GET'))]
     for (nm, m, pth, rt) in g15:
         add('last_modified', nm, m, pth, lm_present, lm_absent, route=rt)
     add('last_modified', 'PUT provider', 'PUT', '%s/%s' % (rp, U3), lm_present, lm_absent, body={'name': 'rp3b'})
